@@ -40,6 +40,10 @@ pub struct History {
     /// the authenticator's user-validation method cannot test presence (U2F callers pass the presence flags themselves)
     #[serde(default)]
     pub no_presence_capability: bool,
+    /// application parameters of registrations are 32 copies of the step's `app` byte (values such as the ones browsers use
+    /// for placeholder requests) instead of one of three hashes
+    #[serde(default)]
+    pub const_apps: bool,
 }
 
 fn app(i: u8) -> [u8; 32] {
@@ -67,7 +71,7 @@ fn run_history<S: CredentialStore<PasskeyItem = Passkey> + Sync + Send>(ctx: &mu
         ctx.eval();
         match step {
             Step::Register { challenge, app: a, handle, reuse, fault } => {
-                let application = app(*a);
+                let application = if h.const_apps { [*a; 32] } else { app(*a) };
                 let reused = reuse.filter(|_| !ever.is_empty()).map(|k| ever[idx(k, ever.len())].clone());
                 if reused.is_some() {
                     ctx.class("register/key handle registered before");
@@ -341,7 +345,11 @@ fn history() -> impl Strategy<Value = History> {
         3 => (any::<[u8; 32]>(), proptest::option::weighted(0.8, any::<u16>()), proptest::collection::vec(any::<u8>(), 0..20), proptest::bool::weighted(0.1), prop_oneof![Just(0u32), Just(u32::MAX), Just(0x0102_0304), any::<u32>()], any::<u8>(), any::<u8>())
             .prop_map(|(challenge, known, unknown, wrong_app, counter, flags, p1)| Step::Authenticate { challenge, known, unknown, wrong_app, counter, flags, p1 }),
     ];
-    (0u8..3, proptest::collection::vec(step, 1..10), proptest::bool::weighted(0.25)).prop_map(|(store, steps, no_presence_capability)| History { store, steps, no_presence_capability })
+    (0u8..3, proptest::collection::vec(step, 1..10), proptest::bool::weighted(0.25)).prop_map(|(store, steps, no_presence_capability)| {
+        // one history in five uses constant-byte application parameters
+        let const_apps = steps.len() % 5 == 0;
+        History { store, steps, no_presence_capability, const_apps }
+    })
 }
 
 fn frame() -> impl Strategy<Value = Frame> {
@@ -374,7 +382,7 @@ pub fn run(ctx: &mut Ctx) {
     }
     // every handle length, once
     for len in (0..=255usize).filter(|_| fs) {
-        let h = History { store: (len % 3) as u8, steps: vec![Step::Register { challenge: [len as u8; 32], app: 1, handle: vec![0xA5; len], reuse: None, fault: None }, Step::Authenticate { challenge: [7; 32], known: Some(0), unknown: vec![], wrong_app: false, counter: len as u32, flags: len as u8, p1: len as u8 }], no_presence_capability: false };
+        let h = History { store: (len % 3) as u8, steps: vec![Step::Register { challenge: [len as u8; 32], app: 1, handle: vec![0xA5; len], reuse: None, fault: None }, Step::Authenticate { challenge: [7; 32], known: Some(0), unknown: vec![], wrong_app: false, counter: len as u32, flags: len as u8, p1: len as u8 }], no_presence_capability: false, const_apps: false };
         if let Err(e) = check_history(ctx, &h) {
             ctx.violation("handle-lengths", json!(h), &e);
             break;
@@ -382,6 +390,14 @@ pub fn run(ctx: &mut Ctx) {
         let f = Frame::Authenticate { p1: len as u8, challenge: [1; 32], application: [2; 32], handle: vec![3; len], le: (len % 2 == 0).then_some(0) };
         if let Err(e) = check_frame(ctx, &f) {
             ctx.violation("frames-handle-lengths", json!(f), &e);
+            break;
+        }
+    }
+    // every constant-byte application parameter, once
+    for b in (0..=255u8).filter(|_| fs) {
+        let h = History { store: b % 3, steps: vec![Step::Register { challenge: [b ^ 0x5A; 32], app: b, handle: format!("const-app-handle-{b}").into_bytes(), reuse: None, fault: None }, Step::Authenticate { challenge: [9; 32], known: Some(0), unknown: vec![], wrong_app: false, counter: b as u32, flags: 1, p1: 0 }], no_presence_capability: false, const_apps: true };
+        if let Err(e) = check_history(ctx, &h) {
+            ctx.violation("histories", json!(h), &e);
             break;
         }
     }
